@@ -31,7 +31,8 @@ def expand(a, x, n, dirn, rng=None):
     for k in range(0, L + 1):
         out.append({"fn": "sum_over", "a": A, "idx": [0, k, L] if k % 2 == 0 else [k, L]})
     ij = [(i, j) for i in range(0, (L + n - 1) // n + 1) for j in range(-n, n) if -L <= i * n + j < L]
-    sets = [[ij[0][0], ij[0][1], R(Fraction(7, 2))], [ij[-1][0], ij[-1][1], R(-9)]]
+    picks = [ij[0], ij[-1], ij[len(ij) // 2]] + [p for p in ij if p[0] >= 1 and p[1] < 0][:2] + [p for p in ij if p[0] >= 1 and p[1] < 0][-1:]
+    sets = [[p[0], p[1], R(Fraction(7 + 2 * k, 2))] for k, p in enumerate(picks)]
     out.append({"fn": "interval", "a": A, "n": n, "num": n, "get_ij": [list(p) for p in ij], "sets": sets})
     out.append({"fn": "average", "x": X, "y": A, "n": n})
     return out
@@ -71,12 +72,12 @@ def run():
             c.count_nontrivial((e["fn"], str(a), n, e.get("dir"), str(e.get("lstart")), str(e.get("idx")), e.get("periodic")))
     # negative controls: one corrupted output per family
     def corrupt(fn, key, prefix, pick=lambda v: v):
-        e = copy.deepcopy(next(e for e in evs if e["fn"] == fn and e["outcome"] == "ok" and pick(e[key])))
-        v = e[key]
-        while isinstance(v[0][0], list):
-            v = v[0]
-        v[0] = [v[0][0] if v[0][0] in (-1, 1) else 1, v[0][1] + 7, v[0][2]]
-        c.add_negative(e, prefix)
+        def mut(e):
+            v = e[key]
+            while isinstance(v[0][0], list):
+                v = v[0]
+            v[0] = [v[0][0] if v[0][0] in (-1, 1) else 1, v[0][1] + 7, v[0][2]]
+        c.negative_from(evs, lambda e: e["fn"] == fn and e["outcome"] == "ok" and e[key] and pick(e[key]), mut, prefix)
     if not c.replay_path:
         corrupt("oversample", "out_lin", "C17.oversample_linspace")
         corrupt("extend", "out_const", "C17.extend_constant")
